@@ -80,6 +80,25 @@ def if_trees(space, depth):
                     var.append(claripy.If(cond, t3, t2))
             except ClaripyError:
                 pass
+    # two Ifs whose conditions have the same shape over DIFFERENT variables, combined by one operation (excavate_ite
+    # may merge Ifs only on the very same condition)
+    k0, k1 = claripy.BVV(0, space.w), one
+    two = []
+    for cx_, cy_ in ((claripy.ULT(x, one), claripy.ULT(y, one)), (x == k0, y == k0), (claripy.UGT(x, k0), claripy.UGT(y, k0))):
+        for (a1, b1), (a2, b2) in itertools.product(((k0, one), (x, k0), (one, y)), repeat=2):
+            i1, i2 = claripy.If(cx_, a1, b1), claripy.If(cy_, a2, b2)
+            for f in (operator.add, operator.xor, operator.and_, lambda p_, q_: claripy.Concat(p_, q_), lambda p_, q_: p_ == q_, lambda p_, q_: claripy.ULT(p_, q_)):
+                try:
+                    two.append(f(i1, i2))
+                except ClaripyError:
+                    pass
+    seen = set()
+    uniq = []
+    for e_ in two:
+        if id(e_) not in seen:
+            seen.add(id(e_))
+            uniq.append(e_)
+    out = out + uniq
     seen = set()
     uniq = []
     for e_ in var:
